@@ -1,3 +1,4 @@
+import Cactus.Lemmas.StdSim
 import Cactus.Lemmas.Basic
 import Cactus.Props.C03
 import Cactus.Props.C14
@@ -35,5 +36,26 @@ theorem C07_no_trace (s : State) (o : Nat) (ob : Obj) (hc : s.cell o = some ob) 
 inserts into a table -/
 theorem C07_new_table_empty (s : State) (v : Val) : (s.alloc v).tableOf s.heap.length = some [] := by
   simp [State.alloc, State.tableOf, State.cell]
+
+
+/-! ## The simulation (`Cactus.Lemmas.StdSim`, reference model `Cactus.Spec.Std`)
+
+`stdRun` executes a history on a reference model of `std::rc::{Rc, Weak}` (strong count, weak count
+with the implicit weak, value dropped by the last strong handle, allocation freed at weak zero;
+no link tables, no sentinel).  For every history whose operations are all shared-API operations
+(everything except `adopt`/`unadopt`/`link`/`unlink`, also inside destructor scripts) the two
+machines produce the same state up to erasure of the link tables and of the `uninit` sentinel —
+in particular the same event log: the same sequence of value destructions, releases, return
+values (`upgrade`, `try_unwrap`, `get_mut`, `make_mut` branch, `ptr_eq`, all four count queries)
+and panics. -/
+
+theorem C07_same_observations_as_std (ops : List (Op × List Nat)) (hops : ∀ oh ∈ ops, oh.1.shared) :
+    (run ops).log = (stdRun ops).log ∧ (run ops).err = (stdRun ops).err
+    ∧ (run ops).erase = stdRun ops :=
+  ⟨run_log ops hops, run_err ops hops, run_erase ops hops⟩
+
+/-- one step of the cycle-aware machine is one step of the `std` machine -/
+theorem C07_step_simulation (s : State) (h : s.Std) (hI : s.Inv) (hS : s.InvS) :
+    (step s).erase = stdStep s.erase := step_erase s h hI hS
 
 end Cactus
